@@ -1,5 +1,5 @@
 """C04 - search_data is a faithful, ordered record of what was evaluated."""
-from .. import common as C, gen, scen
+from .. import common as C, gen, scen, translators
 from ..runner import Check
 from . import drvgen, drvcommon as D
 
@@ -57,7 +57,7 @@ def scenarios(r, n):
 
 
 def run():
-    chk = Check("C04")
+    chk = Check("C04", props_modules=["GFO.Props.C04", "GFO.Gen.MemGenCheck"], gen_steps=(translators.gen_memory,))
     chk.build_and_audit()
     r = C.rng("C04")
     quick = C.tier() != "thorough"
